@@ -424,6 +424,11 @@ def regenerate(prop=None):
             res["problems"].append("translator: unsupported construct: %s" % e)
         except Exception as e:  # malformed source etc.
             res["problems"].append("translator: failed on %s: %r" % (path, e))
+    # typed extension (Eigen-level straight-line code, inlined library calls): tools/cxx2lean_typed.py
+    import cxx2lean_typed
+    r2 = cxx2lean_typed.regenerate(prop)
+    res["functions"].update(r2["functions"])
+    res["problems"] += r2["problems"]
     return res
 
 
